@@ -1,8 +1,9 @@
 import VlsModel.Drv.Common
-/- Line-protocol models serving property C06 (none yet). -/
+import VlsModel.Drv.Payments
+/- Line-protocol models serving property C06. -/
 namespace VlsModel.Drv.C06
 open VlsModel.Drv
 
-def models : List (String × Model) := []
+def models : List (String × Model) := [ ("payments", Payments.model) ]
 
 end VlsModel.Drv.C06
